@@ -231,14 +231,10 @@ var c12ForgedParams *anypb.Any
 const c12ForgedPort = 70000
 const c12ForgedV4 = 0x06060606
 
-func c12MkSubnets(l []c12Subnet, transport string) []Subnet {
-	var out []Subnet
+func c12ConfEntries(l []c12Subnet, transport string) []c12ConfEntry {
+	var out []c12ConfEntry
 	for _, s := range l {
-		_, n, err := net.ParseCIDR(s.cidr)
-		if err != nil {
-			panic(err)
-		}
-		out = append(out, Subnet{CIDR: Ipnet{n}, Weight: s.weight, Port: s.port, Transport: transport, PrefixId: s.prefixID})
+		out = append(out, c12ConfEntry{cidr: s.cidr, weight: s.weight, port: s.port, transport: transport, prefixID: s.prefixID})
 	}
 	return out
 }
@@ -247,20 +243,65 @@ func c12MkSubnets(l []c12Subnet, transport string) []Subnet {
 var c12Built = map[string]*RegProcessor{}
 var c12CtorErr error
 
-func (c *c12Case) config() (all []Subnet, ex []Subnet, key string) {
-	all = append(all, c12MkSubnets(c.minSub, "Min_Transport")...)
-	all = append(all, c12MkSubnets(c.pfxSub, "Prefix_Transport")...)
-	// a subnet of another transport must be dropped by the constructor
-	all = append(all, c12MkSubnets([]c12Subnet{{"10.250.0.0/24", 4, 443, prefix.Min}}, "Obfs4_Transport")...)
-	for _, e := range c.excl {
-		_, n, err := net.ParseCIDR(e.cidr)
-		if err != nil {
-			panic(err)
-		}
-		ex = append(ex, Subnet{CIDR: Ipnet{n}, Weight: e.weight, Port: e.port, Transport: e.transport, PrefixId: e.prefixID})
-	}
+// config: the case's subnet configuration, written as the configuration file the registrar reads and decoded
+// by the decoder the registrar uses (toml -> Ipnet.UnmarshalText); one decoding per distinct configuration.
+func (c *c12Case) config() (all []Subnet, ex []Subnet, key string, err error) {
 	key = fmt.Sprintf("%v|%s|%s|%v|%v|%v", c.enforce, c12Subnets(c.minSub, "1"), c12Subnets(c.pfxSub, "4"), c.excl, c.pctMin, c.pctPfx)
-	return
+	if d, ok := c12Decoded[key]; ok {
+		return d.conf.OverrideSubnets, d.conf.ExclusionsFromOverride, key, d.err
+	}
+	var over, excl []c12ConfEntry
+	over = append(over, c12ConfEntries(c.minSub, "Min_Transport")...)
+	over = append(over, c12ConfEntries(c.pfxSub, "Prefix_Transport")...)
+	// a subnet of another transport must be dropped by the constructor
+	over = append(over, c12ConfEntries([]c12Subnet{{"10.250.0.0/24", 4, 443, prefix.Min}}, "Obfs4_Transport")...)
+	for _, e := range c.excl {
+		excl = append(excl, c12ConfEntry{cidr: e.cidr, weight: e.weight, port: e.port, transport: e.transport, prefixID: e.prefixID})
+	}
+	conf, err := c12DecodeConfig(c12ConfigText(c.enforce, c.pctMin, c.pctPfx, over, excl))
+	if err == nil && (conf.EnforceSubnetOverrides != c.enforce || conf.PrcntMinRegsToOverride != c.pctMin || conf.PrcntPrefixRegsToOverride != c.pctPfx ||
+		len(conf.OverrideSubnets) != len(over) || len(conf.ExclusionsFromOverride) != len(excl)) {
+		panic("c12: the written configuration does not decode to the case's scalars / entry counts")
+	}
+	if err != nil {
+		conf = &c12Conf{}
+	}
+	c12Decoded[key] = c12DecodedConf{conf, err}
+	return conf.OverrideSubnets, conf.ExclusionsFromOverride, key, err
+}
+
+type c12DecodedConf struct {
+	conf *c12Conf
+	err  error
+}
+
+var c12Decoded = map[string]c12DecodedConf{}
+
+// rejected: the loader refuses the case's configuration (the registrar would not start).  The case is then
+// reported as the `cidr|` line of the first text the decoder refuses.
+func (c *c12Case) rejected(res *c12Out) bool {
+	_, _, _, err := c.config()
+	if err == nil {
+		return false
+	}
+	var texts []string
+	for _, s := range c.minSub {
+		texts = append(texts, s.cidr)
+	}
+	for _, s := range c.pfxSub {
+		texts = append(texts, s.cidr)
+	}
+	for _, e := range c.excl {
+		texts = append(texts, e.cidr)
+	}
+	res.line, res.impl = "cidr|-", "config-rejected: "+err.Error()
+	for _, t := range texts {
+		if line, impl := c12CidrCase(t); impl == "E" {
+			res.line, res.impl = line, impl
+			break
+		}
+	}
+	return true
 }
 
 // processor: the fields a constructor derives from the configuration come from the real
@@ -270,7 +311,10 @@ func (c *c12Case) processor(snd *c12Sender) *RegProcessor {
 		c.prebuilt.sock, c.prebuilt.ipSelector, c.prebuilt.metrics = snd, &c.sel, c12Metrics
 		return c.prebuilt
 	}
-	all, ex, key := c.config()
+	all, ex, key, cerr := c.config()
+	if cerr != nil {
+		panic("c12: configuration refused by the loader: " + cerr.Error())
+	}
 	b := c12Built[key]
 	if b == nil {
 		var err error
@@ -458,21 +502,15 @@ func c12ErrKind(err error) string {
 
 func c12V4num(ip net.IP) uint32 { return binary.BigEndian.Uint32(ip.To4()) }
 
+// model: the entry as the model gets it: the cidr TEXT (hex), the model parses it itself.
 func (s c12Subnet) model(label string) string {
-	_, n, _ := net.ParseCIDR(s.cidr)
-	ones, _ := n.Mask.Size()
-	isv4 := n.IP.To4() != nil
-	base := uint32(0)
-	if isv4 {
-		base = c12V4num(n.IP)
-	}
 	pfx := "-"
 	if s.prefixID != prefix.Rand {
 		if px, err := prefix.TryFromID(s.prefixID); err == nil && px != nil {
 			pfx = fmt.Sprintf("%d~%s~%d", int32(px.ID()), hex.EncodeToString(px.Bytes()), px.FlushPolicy())
 		}
 	}
-	return fmt.Sprintf("%s:%d:%d:%d:%d:%s:%s", vlib.B(isv4), base, ones, s.w8(), s.port, pfx, label)
+	return fmt.Sprintf("T%s:%d:%d:%s:%s", hex.EncodeToString([]byte(s.cidr)), s.w8(), s.port, pfx, label)
 }
 
 // c12Subnets: label = the model's token for the transport string the entries are configured with.
@@ -539,6 +577,9 @@ func c12Signed(fwd *pb.C2SWrapper) string {
 func c12RunUni(c *c12Case, out *vlib.Out) (res c12Out) {
 	res.chosen = -1
 	fail := func(sig, what string) { res.fails = append(res.fails, [2]string{sig, what}) }
+	if c.rejected(&res) {
+		return
+	}
 	snd := &c12Sender{fail: c.sendFail}
 	p := c.processor(snd)
 	req := c.request()
@@ -598,16 +639,15 @@ type c12Out struct {
 	subs       []c12Sub // further correspondence cases made from this one (station side)
 }
 
-func c12InNet(cidr string, a uint32) bool {
-	_, n, _ := net.ParseCIDR(cidr)
-	ip := make(net.IP, 4)
-	binary.BigEndian.PutUint32(ip, a)
-	return n.Contains(ip)
-}
+// c12InNet: does the address lie in the network the text designates (prefix arithmetic on the text)?
+func c12InNet(cidr string, a uint32) bool { return c12MustNet(cidr).has(a) }
 
 func c12Run(c *c12Case, out *vlib.Out) (res c12Out) {
 	res.chosen = -1
 	fail := func(sig, what string) { res.fails = append(res.fails, [2]string{sig, what}) }
+	if c.rejected(&res) {
+		return
+	}
 	snd := &c12Sender{fail: c.sendFail}
 	p := c.processor(snd)
 	req := c.request()
@@ -825,14 +865,17 @@ func c12Run(c *c12Case, out *vlib.Out) (res c12Out) {
 		}
 		if resp.Ipv4Addr != nil {
 			for i, s := range subs {
-				_, n, _ := net.ParseCIDR(s.cidr)
-				if n.IP.To4() != nil && s.weight > 0 && c12InNet(s.cidr, *resp.Ipv4Addr) {
+				if s.weight > 0 && c12InNet(s.cidr, *resp.Ipv4Addr) {
 					res.chosen = i
 				}
 			}
 		}
 		if res.chosen < 0 {
-			fail("C12:substitute-outside-configured", fmt.Sprintf("selector gave %v, response carries %s, which is in no weighted override subnet of this transport", c.sel.v4, c12Resp(resp)))
+			var conf []string
+			for _, s := range subs {
+				conf = append(conf, fmt.Sprintf("%q (weight %v) = %v", s.cidr, s.weight, c12MustNet(s.cidr)))
+			}
+			fail("C12:substitute-outside-configured", fmt.Sprintf("selector gave %v, response carries %s, which is in no weighted override subnet configured for this transport: %s", c.sel.v4, c12Resp(resp), strings.Join(conf, ", ")))
 		}
 		if !c.enforce {
 			fail("C12:substitute-outside-configured", "phantom substituted although subnet overrides are not enforced")
@@ -1142,7 +1185,8 @@ var c12StationTransports = map[pb.TransportType]lib.Transport{}
 // generators
 
 var c12V4Pool = []string{"203.0.113.7", "198.18.5.9", "192.0.2.200", "10.77.1.3", "172.20.9.9"}
-var c12Excl = [][]string{nil, {"203.0.113.0/24"}, {"198.18.0.0/15", "10.77.0.0/16"}, {"2001:db8::/32"}, {"192.0.2.0/24", "203.0.113.0/28"}}
+var c12Excl = [][]string{nil, {"203.0.113.0/24"}, {"198.18.0.0/15", "10.77.0.0/16"}, {"2001:db8::/32"}, {"192.0.2.0/24", "203.0.113.0/28"},
+	{"203.0.113.99/24", "::ffff:198.18.77.1/111"}}
 
 var c12SubnetSets = [][]c12Subnet{
 	nil,
@@ -1159,6 +1203,10 @@ var c12SubnetSets = [][]c12Subnet{
 	{{"10.1.0.0/24", 0.125, 443, prefix.TLSClientHello}, {"10.2.0.0/24", 0.375, 80, prefix.HTTPResp}, {"10.3.0.0/24", 0.5, 22, prefix.Min}},
 	// very unequal weights
 	{{"10.1.0.0/24", 5000, 443, prefix.Min}, {"10.2.0.0/24", 1, 80, prefix.GetLong}, {"10.3.0.0/24", 2500.5, 22, prefix.OpenSSH2}},
+	// the same kind of networks as an operator may write them: host bits set (interface-style address, last
+	// address), IPv4-mapped spellings, a single address, a prefix length with a leading zero
+	{{"10.1.0.77/24", 1, 443, prefix.Min}, {"::ffff:10.2.0.0/120", 1, 80, prefix.GetLong}, {"::ffff:10.3.0.9/124", 2, 22, prefix.OpenSSH2}, {"10.4.4.4/32", 1, 53, prefix.DNSOverTCP}},
+	{{"10.1.255.255/16", 3, 443, prefix.TLSClientHello}, {"0:0:0:0:0:FFFF:0a02:0001/120", 1, 80, prefix.HTTPResp}, {"10.3.0.129/25", 2, 22, prefix.Min}, {"2001:db8:5::1/128", 1, 443, prefix.Min}, {"10.5.0.200/024", 1, 8080, prefix.GetLong}},
 }
 
 func c12PrefixAny(id *int32, rnd *bool, pre []byte, typed bool) *anypb.Any {
@@ -1184,6 +1232,12 @@ func c12Random(r *vlib.Rand) *c12Case {
 	c.minSub = c12SubnetSets[r.Intn(len(c12SubnetSets))]
 	c.pfxSub = c12SubnetSets[r.Intn(len(c12SubnetSets))]
 	c.excl = c12RandomExcl(r, c12Excl[r.Intn(len(c12Excl))])
+	// the same networks spelled differently (host bits, IPv4-mapped forms, leading zero in the prefix length)
+	if r.Chance(1, 4) {
+		c.minSub = c12RespellSet(c.minSub, r.Intn(c12Spellings))
+		c.pfxSub = c12RespellSet(c.pfxSub, r.Intn(c12Spellings))
+		c.excl = c12RespellExcl(c.excl, r.Intn(c12Spellings))
+	}
 	pcts := []float64{100, 100, 100, 0}
 	c.pctMin, c.pctPfx = pcts[r.Intn(4)], pcts[r.Intn(4)]
 	c.sel = c12Selector{v4: net.ParseIP(c12V4Pool[r.Intn(len(c12V4Pool))]), v6: net.ParseIP(fmt.Sprintf("2001:db8:77::%x", r.Intn(60000)+1)),
@@ -1361,8 +1415,7 @@ func c12Sweep(sink *vlib.Out, emit c12Emit, tag string, subs []c12Subnet, tr pb.
 	for i, s := range subs {
 		lo, hi := acc/total, (acc+s.weight)/total
 		acc += s.weight
-		_, nn, _ := net.ParseCIDR(s.cidr)
-		if s.weight == 0 || nn.IP.To4() == nil {
+		if s.weight == 0 || !c12MustNet(s.cidr).v4 {
 			continue
 		}
 		for k := 0; k < 3; k++ {
@@ -1549,6 +1602,10 @@ func c12All(sink *vlib.Out, emit c12Emit) {
 	// 2b. every exclusion entry x every registration transport
 	c12ExclGrid(sink, emit)
 
+	// 2c. the text of the subnet configuration: the decoder alone, then prefix length x host bits x spelling
+	c12CidrLines(sink, emit)
+	c12CidrGrid(sink, emit)
+
 	// 3. random cases (0 % / 100 % only: the gate draw is then irrelevant) + twin runs for forged fields
 	N := vlib.Budget(30000, 400000)
 	for i := 0; i < N; i++ {
@@ -1715,7 +1772,7 @@ var c12AuthCase = func() *c12Case {
 // subnets goes through the processor it returned.
 func c12CtorSweep(sink *vlib.Out, emit c12Emit) {
 	proto0 := c12AuthCase()
-	all, ex, _ := proto0.config()
+	all, ex, _, _ := proto0.config()
 	var res0 c12Out
 	res0.chosen = -1
 	if c12AuthProc == nil {
